@@ -5,7 +5,8 @@ A transliteration of the C code as it is in `/repo` now (after the `fix:` commit
 `d72f7d0` "usual arithmetic conversions for ?: operands of the same type", `3c7c8ce` "integer
 promotion of an enum operand yields the promoted type", `8619181` "only an unqualified (void *)0
 is a null pointer constant", `6d47956` "usual arithmetic conversions with an enum whose underlying
-type is long or long long").
+type is long or long long", `3bfdead` "keep the element qualifiers when dereferencing a decayed
+array").
 
 Conventions
 * The 15 global `struct type` objects of `type.c` are the constructors of `Basic`; an enumerated
@@ -661,13 +662,9 @@ def unaryOp (sc : Bool) (op : UnOp) (e : Operand) : Option Operand :=
   | .deref =>
     match e.ty with
     | .ptr q b =>
-      -- `if (base->kind == EXPRUNARY && base->op == TBAND) { expr = base->base; expr->type = type; }`:
-      -- for a decayed array the designator itself is reused with the element type, and keeps ITS
-      -- qualifiers (`e->qual` of the array object) -- the element qualifiers `t->qual` are dropped
-      let q' := match e.decayedFrom with
-        | some (_, dq) => dq
-        | none => q
-      some (decay { ty := b, qual := q', lvalue := true })
+      -- the `&`-elimination shortcut reuses the designator with `expr->qual = base->type->qual`
+      -- (fix 3bfdead), so both paths give the referenced type's qualifiers
+      some (decay { ty := b, qual := q, lvalue := true })
     | _ => none
   | .plus =>
     if !e.ty.isArith then none
